@@ -6,17 +6,18 @@
     the inputs and what the implementation answered.  Per case:
 
     - correspondence: every [Add] / [AddRuleSet] result and every lookup answer
-      equals what the machine of Radix/Machine.v computes ([lookup true] = the
-      code as it is, [lookup false] after fixes/C02-F1.diff) AND what the
+      equals what the machine of Radix/Machine.v computes ([lookup false] = the
+      code as it is since fix e897fef, [lookup true] = the pinned tree) AND what the
       compressed tree of Radix/Tree.v (the transcription of tree.go) computes;
       that tree satisfies its shape invariant [wfb] and its abstraction [abs]
       is the machine's index (so theorem C02_tree_refines_machine applies to it);
     - property: every lookup answer equals [spec_lookup] on the index content
       the IMPLEMENTATION accepted (expression -> values in insertion order, flag,
       key names), built by [spec_db] without the machine;
-    - guard 1 (C02-F1) fires for the case iff it fires for some lookup and every
-      lookup that is not a plain pass is one the guard fires for — so an
-      unrelated failure in the same case is never excused by the finding. *)
+    - guard 1 (C02-F1, only with [impl_fixed = false], i.e. against the pinned tree)
+      fires for the case iff it fires for some lookup and every lookup that is not
+      a plain pass is one the guard fires for — so an unrelated failure in the same
+      case is never excused by the finding. *)
 From HV Require Export Base.Prelude Radix.Spec Radix.Machine Radix.Load Radix.Tree C02.Model.
 
 Definition s2l : string -> str := list_ascii_of_string.
@@ -72,10 +73,11 @@ Fixpoint tload (t : tree rval) (l : list (addop rval)) : tree rval * list (tres 
   | a :: r => let (t1, x) := tstep t a in let (t2, xs) := tload t1 r in (t2, x :: xs)
   end.
 
-(** [fx1] = the C02-F1 repair; C03-F2 / C03-F5 stay as they are (they cannot change
-    the id returned for conditions that do not look at captures) *)
+(** [impl_fixed] = the C02-F1 repair (commit e897fef); the switches of C03-F2 / C03-F5
+    (commits 88da16a, 16cf34b) are on: they cannot change the id returned for
+    conditions that do not look at captures (TreeProofs.find_node_caps_blind) *)
 Definition tfind (impl_fixed : bool) (t : tree rval) (path : str) (m : matcher rval) : found rval :=
-  tree_find impl_fixed false false m t path.
+  tree_find impl_fixed true true m t path.
 
 Definition tree_ok (t : tree rval) (d : db rval) : bool := wfb t && db_equiv (abs t) d.
 
